@@ -64,6 +64,27 @@ package producer
 //@   loop 1 @ for #e6a13e71
 //@     invariant n != nil && n.logger != nil && ec != nil && n.connection != nil
 //@     step [once] calls_Publish == iter(calls_Publish) + 1
+// ---- kafka (segmentio): messages are batched; a batch is written when it is full, on the periodic flush, at shutdown.
+// Per iteration: a received message is appended to the batch as it is (same octets) behind the earlier ones, nothing
+// else changes the batch; when the batch is written, WriteMessages gets exactly the batch (with the message of this
+// iteration, if any) and the batch starts again empty — so every message is handed over once, in order.
+//@ pred batchPlus(b []kafka.Message, before []kafka.Message, m []byte) = len(b) == len(before) + 1 && b.off == before.off
+//@     && (forall q :: before.off <= q && q < before.off + len(before) ==> b.arr[q] == before.arr[q]) && sameview(b[len(before)].Value, m)
+//@ func (*KafkaSegmentio).inputMsg
+//@   names k topic mCh ec batch shutdown pflush pftimer message ok err err
+//@   requires k.logger != nil && ec != nil && 0 <= k.config.BatchSize && k.config.BatchSize <= 1048576
+//@   opt nonterminating
+//@   opt allocbound 1048576
+//@   opt countrecvs mCh
+//@   opt countcalls WriteMessages
+//@   opt lastargs WriteMessages
+//@   modifies k.config.run, k.producer, ec
+//@   loop 1 @ for #684260d9
+//@     invariant k != nil && k.logger != nil && ec != nil && k.producer != nil && pftimer != nil
+//@     step [once] calls_WriteMessages <= iter(calls_WriteMessages) + 1
+//@     step [append] recvs_mCh == iter(recvs_mCh) + 1 && calls_WriteMessages == iter(calls_WriteMessages) ==> batchPlus(batch, iter(batch), lastrecv_mCh)
+//@     step [idle] recvs_mCh == iter(recvs_mCh) && calls_WriteMessages == iter(calls_WriteMessages) ==> batch == iter(batch)
+//@     step [flush] calls_WriteMessages == iter(calls_WriteMessages) + 1 ==> len(batch) == 0 && (recvs_mCh == iter(recvs_mCh) + 1 ? batchPlus(WriteMessages_arg1, iter(batch), lastrecv_mCh) : WriteMessages_arg1 == iter(batch))
 
 // >>> field snapshots (govc -gen-names)
 //@ fields KafkaSarama producer config logger
